@@ -402,13 +402,13 @@ def split_lines(text):
     return text.splitlines(keepends=True)
 
 
-def bad_lines():
-    out = [("6-fields", " ".join(BAD_TEMPLATE[:6])), ("1-field", "5")]
+def bad_lines(template=BAD_TEMPLATE):
+    out = [("6-fields", " ".join(template[:6])), ("1-field", "5")]
     for j in range(7):
-        t = list(BAD_TEMPLATE); t[j] = "abc"
+        t = list(template); t[j] = "abc"
         out.append((f"abc@{COLS[j]}", " ".join(t)))
     for j in range(7):
-        t = list(BAD_TEMPLATE); t[j] = "1,5"
+        t = list(template); t[j] = "1,5"
         out.append((f"1,5@{COLS[j]}", " ".join(t)))
     return out
 
@@ -503,6 +503,12 @@ def run(ctx):
                     opts = [dict(), dict(reset_index=False), dict(sort_nodes=True)][kk % 3]
                     spec = dict(kind="bad", text=text, src=SRCS[kk % 3], opts=opts, tree=(kk % 3 == 0), nrows_base=nb, bad_kind=bk, bad_line=bl, position=pos)
                     go("malformed", spec)
+        # minimal texts: two plain rows, each malformed kind at each of the 3 positions, all option sets and sources
+        for bk, bl in bad_lines(["3", "3", "1.5", "2", "0", "1", "1"]):
+            for pos, opts, src in itertools.product(range(3), [dict(), dict(reset_index=False), dict(sort_nodes=True)], SRCS):
+                lines = ["1 1 0 0 0 1 -1\n", "2 1 1 0 0 1 1\n"]
+                text = "".join(lines[:pos]) + bl + "\n" + "".join(lines[pos:])
+                go("malformed-minimal", dict(kind="bad", text=text, src=src, opts=opts, tree=True, nrows_base=2, bad_kind=bk, bad_line=bl, position=pos))
         # the design note's own example
         go("malformed", dict(kind="bad", text="1 1 0 0 0 1 -1\n2 1 1 0 0 1 1\nBAD LINE\n3 1 2 0 0 1 2\n", src="text", opts={}, tree=True, nrows_base=3, bad_kind="words",
                              bad_line="BAD LINE", position=2))
@@ -570,7 +576,7 @@ def run(ctx):
         ctx.rule("well-formed SWC texts of 1-6 rows from the product {4 separator modes (' ', tab, two blanks, mixed)} x {4 leading blanks} x {LF, CRLF} x {0,1,2 trailing fields} x "
                  "{no decoration, blank lines, comment lines, both} (quick: every second text with 2 rows, every third with >=3 rows), float spellings " + repr(FLOATS) + ", options reset_index True/False, "
                  "extra_cols None/['a']/['a','b'], sources StringIO/BytesIO/path, encodings utf-8/utf-16/latin-1/detect; each of " + str(len(bads)) + " malformed lines "
-                 "(6 fields, 1 field, 'abc' and '1,5' in each of the 7 columns) inserted at EVERY line position of " + str(len(bases)) + " base texts; b'\\xff\\xfe' at "
+                 "(6 fields, 1 field, 'abc' and '1,5' in each of the 7 columns) inserted at EVERY line position of " + str(len(bases)) + " base texts (sources and option sets {}, reset_index=False, sort_nodes=True rotating) and of a plain 2-row text (all 3 sources x 3 option sets); b'\\xff\\xfe' at "
                  + str(len(offs)) + " offsets of a 20 KB body (raw offset and inside a comment) from BytesIO and path; sort_nodes=True on all parent tables <= "
                  + str(5 if thorough else 4) + " nodes x all row orders x 2 id assignments (quick: 1 for 4 nodes) + random tail. Oracle: 15-line reference reader (str.split + int/float); "
                  "'must raise' for corrupted inputs. Every case is non-trivial (>= 1 data row).", exhaustive=False)
